@@ -17,7 +17,7 @@ one() {
   out=$(mktemp -d /tmp/mxout.XXXXXX)
   caught=""
   # one process runs every check (development mode of the checker)
-  caught=" $(VERIF_OUT="$out" "$here/bin/ntripcheck" -property all -repo "$wt" -verif "$here" 2>&1 | awk '/^ALL .* (ALARM|PANIC)/{printf "%s ", $2} /^ALL load-error/{printf "LOAD "}')"
+  caught=" $(VERIF_OUT="$out" "${BIN:-$here/bin/ntripcheck}" -property all -repo "$wt" -verif "$here" 2>&1 | awk '/^ALL .* (ALARM|PANIC)/{printf "%s ", $2} /^ALL load-error/{printf "LOAD "}')"
   caught=${caught% }
   rm -rf "$out"
   git -C /repo worktree remove --force "$wt"
